@@ -31,7 +31,6 @@ func universe(n int) []*triple.Triple {
 	u := []*triple.Triple{
 		model.T(a, p, model.ON(b)),                                    // 0 base
 		model.T(a, model.PT("p", model.T1), model.ON(b)),              // 1 same id, temporal
-		model.T(a, model.PT("p", model.T2), model.ON(b)),              // 2 other instant
 		model.T(a, p, model.OL(model.L(literal.Int64, int64(0)))),     // 3
 		model.T(a, p, model.OL(model.L(literal.Float64, float64(0)))), // 4 same bytes, other type
 		model.T(a, p, model.OL(model.L(literal.Int64, int64(1)<<40))), // same type, a value whose encoding is longer (identity must not depend on what was hashed before)
@@ -41,6 +40,7 @@ func universe(n int) []*triple.Triple {
 		model.T(model.N("/a", "/bc"), p, model.ON(b)),                 // 8 type/id boundary moved
 		model.T(a, p, model.OP(p)),                                    // 9 predicate-valued object
 		model.T(a, model.PT("p", time.Unix(0, 0).UTC()), model.ON(b)), // 10 temporal at the zero instant: still not the immutable "p"
+		model.T(a, model.PT("p", model.T2), model.ON(b)),              // another instant (the quick universe already has two temporal instants: T1 and the epoch)
 		model.T(a, p, model.OL(model.L(literal.Bool, true))),          // 10
 		model.T(a, p, model.OL(model.L(literal.Text, "true"))),        // 11 same bytes, other type
 		model.T(a, model.PI("q"), model.ON(b)),                        // 12 other predicate id
@@ -328,6 +328,10 @@ type mstate struct {
 	sets  map[int]uint32 // incarnation -> set of triple indexes
 	slots map[string]int // slot (per name) -> incarnation held
 	next  int
+	// listed: a GraphNames call happened earlier in the history. Not part of what the store must hold, but
+	// part of the search state: an implementation may keep something from a listing (a cache of names),
+	// so histories with and without an earlier listing are explored separately.
+	listed bool
 }
 
 func newM() *mstate {
@@ -356,6 +360,8 @@ func (m *mstate) step(o sop) (wantErr bool) {
 			return true
 		}
 		delete(m.live, o.Name)
+	case "names":
+		m.listed = true
 	case "add":
 		if inc, ok := m.slots[o.Name]; ok {
 			m.sets[inc] |= 1 << uint(o.T)
@@ -368,8 +374,20 @@ func (m *mstate) step(o sop) (wantErr bool) {
 	return false
 }
 
+func (m *mstate) liveNames() string {
+	var ln []string
+	for n := range m.live {
+		ln = append(ln, n)
+	}
+	sort.Strings(ln)
+	return fmt.Sprint(ln)
+}
+
 func (m *mstate) canon(names []string) string {
 	var b strings.Builder
+	if m.listed {
+		b.WriteString("listed;")
+	}
 	for _, n := range names {
 		inc, ok := m.live[n]
 		if ok {
@@ -423,7 +441,7 @@ func l2universe() []*triple.Triple {
 }
 
 // runStore replays path on a fresh store; returns per-step error flags and the final observation.
-func runStore(path []sop, names []string, u []*triple.Triple) (errs []bool, observation string, fatal string) {
+func runStore(path []sop, names []string, u []*triple.Triple) (errs []bool, listings []string, observation string, fatal string) {
 	st := memory.NewStore()
 	slots := map[string]storage.Graph{}
 	for _, o := range path {
@@ -434,7 +452,7 @@ func runStore(path []sop, names []string, u []*triple.Triple) (errs []bool, obse
 			g, err = st.NewGraph(model.Ctx, o.Name)
 			if err == nil {
 				if g == nil {
-					return nil, "", "NewGraph returned (nil, nil)"
+					return nil, nil, "", "NewGraph returned (nil, nil)"
 				}
 				slots[o.Name] = g
 			}
@@ -443,12 +461,20 @@ func runStore(path []sop, names []string, u []*triple.Triple) (errs []bool, obse
 			g, err = st.Graph(model.Ctx, o.Name)
 			if err == nil {
 				if g == nil {
-					return nil, "", "Graph returned (nil, nil)"
+					return nil, nil, "", "Graph returned (nil, nil)"
 				}
 				slots[o.Name] = g
 			}
 		case "del":
 			err = st.DeleteGraph(model.Ctx, o.Name)
+		case "names":
+			var ln []string
+			ln, err = model.GraphNames(st)
+			sort.Strings(ln)
+			if ln == nil {
+				ln = []string{}
+			}
+			listings = append(listings, fmt.Sprint(ln))
 		case "add":
 			if g, ok := slots[o.Name]; ok {
 				err = g.AddTriples(model.Ctx, []*triple.Triple{u[o.T]})
@@ -463,7 +489,7 @@ func runStore(path []sop, names []string, u []*triple.Triple) (errs []bool, obse
 	var b strings.Builder
 	ln, err := model.GraphNames(st)
 	if err != nil {
-		return nil, "", "GraphNames: " + err.Error()
+		return nil, nil, "", "GraphNames: " + err.Error()
 	}
 	if ln == nil {
 		ln = []string{}
@@ -476,11 +502,11 @@ func runStore(path []sop, names []string, u []*triple.Triple) (errs []bool, obse
 			continue
 		}
 		if id := g.ID(model.Ctx); id != n {
-			return nil, "", fmt.Sprintf("Graph(%q).ID() = %q", n, id)
+			return nil, nil, "", fmt.Sprintf("Graph(%q).ID() = %q", n, id)
 		}
 		ts, err := model.ListTriples(g, storage.DefaultLookup)
 		if err != nil {
-			return nil, "", "Triples: " + err.Error()
+			return nil, nil, "", "Triples: " + err.Error()
 		}
 		var idx []int
 		for _, t := range ts {
@@ -503,13 +529,16 @@ func runStore(path []sop, names []string, u []*triple.Triple) (errs []bool, obse
 				}
 			}
 			if ok != in {
-				return nil, "", fmt.Sprintf("graph %s: Exist(t%d)=%v but listing=%v", n, i, ok, idx)
+				return nil, nil, "", fmt.Sprintf("graph %s: Exist(t%d)=%v but listing=%v", n, i, ok, idx)
 			}
 		}
 		fmt.Fprintf(&b, "%s=%v;", n, idx)
 	}
-	return errs, b.String(), ""
+	return errs, listings, b.String(), ""
 }
+
+// three names: dropping one of several, in every order, with and without a listing in between
+var l2names = []string{"?a", "?b", "?c"}
 
 type l2case struct {
 	Path []sop `json:"path"`
@@ -518,12 +547,17 @@ type l2case struct {
 func checkL2(path []sop, names []string, u []*triple.Triple) (bool, string, string) {
 	m := newM()
 	var wantErrs []bool
+	var wantListings []string
 	for _, o := range path {
 		wantErrs = append(wantErrs, m.step(o))
+		if o.Kind == "names" {
+			wantListings = append(wantListings, m.liveNames())
+		}
 	}
 	var errs []bool
+	var listings []string
 	var got, fatal string
-	if p := common.Guard(func() { errs, got, fatal = runStore(path, names, u) }); p != nil {
+	if p := common.Guard(func() { errs, listings, got, fatal = runStore(path, names, u) }); p != nil {
 		return false, "panic", fmt.Sprintf("path=%v panic: %v", path, p)
 	}
 	if fatal != "" {
@@ -534,6 +568,9 @@ func checkL2(path []sop, names []string, u []*triple.Triple) (bool, string, stri
 			return false, "error-flag", fmt.Sprintf("path=%v step %d (%v): error=%v, model says %v", path, i, path[i], errs[i], wantErrs[i])
 		}
 	}
+	if fmt.Sprint(listings) != fmt.Sprint(wantListings) {
+		return false, "listing-inside-history", fmt.Sprintf("path=%v\n GraphNames calls returned %v, the graphs created and not dropped were %v", path, listings, wantListings)
+	}
 	if want := m.observe(names, len(u)); want != got {
 		return false, "store-observation", fmt.Sprintf("path=%v\n want=%s\n got =%s", path, want, got)
 	}
@@ -541,9 +578,9 @@ func checkL2(path []sop, names []string, u []*triple.Triple) (bool, string, stri
 }
 
 func level2(r *common.Run, maxDepth int) {
-	names := []string{"?a", "?b"}
+	names := l2names
 	u := l2universe()
-	var ops []sop
+	ops := []sop{{Kind: "names"}}
 	for _, n := range names {
 		ops = append(ops, sop{Kind: "new", Name: n}, sop{Kind: "get", Name: n}, sop{Kind: "del", Name: n})
 		for t := range u {
@@ -622,14 +659,14 @@ func main() {
 	r.Replayer("l2", func(raw json.RawMessage) (bool, string) {
 		var c l2case
 		json.Unmarshal(raw, &c)
-		ok, _, d := checkL2(c.Path, []string{"?a", "?b"}, l2universe())
+		ok, _, d := checkL2(c.Path, l2names, l2universe())
 		return ok, d
 	})
 	r.MaybeReplay()
 	r.Assume("identity of triples is judged structurally through exported accessors (type, id, kind, instant, literal type+value), never through UUID() or String()")
 	r.Assume("successor states are produced by replaying the BFS-shortest operation path on a fresh memory store; merged model states are licensed by checking every transition out of every state")
-	level1(r, r.Pick(12, 15))
 	level2(r, r.Pick(12, 30))
+	level1(r, r.Pick(11, 15))
 	r.Set("rule", "BFS over StoreModel states; level 1: all subsets of the triple universe x all add/remove batches of size 0-2; level 2: store with 2 names, handle slots incl. stale handles, to fixpoint")
 	r.Finish()
 }
